@@ -157,7 +157,7 @@ func (tx *Transaction) Commit(ctx context.Context, scope *ReferenceScope, expr p
 				return NewCommitError(expr, err.Error())
 			}
 
-			if !tx.Flags.ExportOptions.StripEndingLineBreak && !(fileInfo.Format == option.FIXED && fileInfo.SingleLine) {
+			if !tx.Flags.ExportOptions.StripEndingLineBreak && !(fileInfo.Format == option.FIXED && fileInfo.SingleLine) && fileInfo.Format != option.JSONL {
 				if _, err := fp.Write([]byte(fileInfo.LineBreak.Value())); err != nil {
 					return NewCommitError(expr, err.Error())
 				}
@@ -183,7 +183,7 @@ func (tx *Transaction) Commit(ctx context.Context, scope *ReferenceScope, expr p
 				return NewCommitError(expr, err.Error())
 			}
 
-			if !tx.Flags.ExportOptions.StripEndingLineBreak && !(fileInfo.Format == option.FIXED && fileInfo.SingleLine) {
+			if !tx.Flags.ExportOptions.StripEndingLineBreak && !(fileInfo.Format == option.FIXED && fileInfo.SingleLine) && fileInfo.Format != option.JSONL {
 				if _, err := fp.Write([]byte(fileInfo.LineBreak.Value())); err != nil {
 					return NewCommitError(expr, err.Error())
 				}
